@@ -15,7 +15,8 @@ EXPLANATION = (
     "reach the same function; (R4) Indexer::add_record rejects unsorted input with an error exit; (R5) the CSI binned "
     "index's min_offset is a minimum over several bins (ancestor bins hold long records that start earlier in the file) — "
     "the necessary condition whose absence was the genuine defect F3, repaired in /repo."
-    " (R6) sibling agreement of the binning functions: every value that reg2bin (indexer side) and reg2bins (query side) shift right and that derives from `start` / `end` has passed through exactly one `- 1`, i.e. both use the same 0-based closed interval.")
+    " (R6) sibling agreement of the binning functions: every value that reg2bin (indexer side) and reg2bins (query side) shift right and that derives from `start` / `end` has passed through exactly one `- 1`, i.e. both use the same 0-based closed interval."
+    " (R7) unmapped queries test every record: in all six query_unmapped implementations the closure performing the is_unmapped() test is handed to a per-record combinator, never to a prefix combinator such as skip_while.")
 ASSUMPTIONS = ["Interval::intersects and Position arithmetic in noodles-core are correct (unit-tested, value-level)"]
 NOT_DECIDED = ["completeness/soundness of reg2bin/reg2bins, chunk merging and min_offset pruning for every layout x region (the core of C04)",
                "that the chunks produced by the indexers are the true file ranges of the records",
@@ -151,6 +152,44 @@ def run(ctx):
             ctx.violation("C04.R5", "C04.R5/first-hit/" + key,
                           "BinnedIndex::min_offset returns the first bin found on the path to the root instead of a minimum: a long record "
                           "stored in an ancestor bin that starts earlier in the file is pruned from region queries", f.loc())
+
+    ctx.rule("C04.R7", "unmapped query: the is_unmapped() test is applied to every record (filter_map / try_filter_map / from_fn loop), never "
+                       "by a prefix combinator (skip_while, take_while, find, ...) that stops testing after the first match")
+    PREFIX = re.compile(r"::(skip_while|take_while|map_while|try_skip_while|try_take_while|find|find_map|position|skip|take|take_until|skip_until)$")
+    nq = 0
+    for key in sorted(k for k, f in fb.fns.items() if re.search(r"io::reader::Reader::<.*>::query_unmapped$", k) and not f.is_closure):
+        fam = fb.family(key)
+        calls = [(g, b, c) for g in fam for b, c in g.calls()]
+        tests = [1 for g, b, c in calls if (c.get("f") or "").endswith("::Flags::is_unmapped")]
+        if not tests:
+            ctx.violation("C04.R7", "C04.R7/no-flag-test/" + key, "%s no longer tests flags().is_unmapped()" % key, fb.fns[key].loc())
+            continue
+        nq += 1
+        ctx.saw_fn(fb.fns[key])
+        closures = {g.key for g in fam if g.is_closure}
+        bad = None
+        for g, b, c in calls:
+            fk = c.get("f") or ""
+            if not PREFIX.search(fk):
+                continue
+            # the combinator is handed a closure that performs the unmapped test
+            for a in c["args"]:
+                l = C.op_local(a)
+                d = C.single_def(g, l) if l is not None else None
+                if d is not None and d[0] == "=" and d[3][0] == "agg" and d[3][1] == "closure":
+                    ck = d[3][2]
+                    if any((cc.get("f") or "").endswith("::Flags::is_unmapped") for h in fb.family(ck) for _b, cc in h.calls()):
+                        bad = (g, b, fk)
+            if bad is not None:
+                break
+        if bad is None:
+            ctx.ok("C04.R7", key + " :: per-record unmapped filter", "%d flag test(s), no prefix combinator" % len(tests), fb.fns[key].loc())
+        else:
+            g, b, fk = bad
+            ctx.violation("C04.R7", "C04.R7/prefix-combinator/%s/%s" % (key, fk.split("::")[-1]),
+                          "%s filters with %s: the unmapped test stops being applied after the first match, so every later record is yielded "
+                          "whether or not it is flagged unmapped (placed unmapped mates are followed by mapped records)" % (key, fk.split("::")[-1]), g.loc(b))
+    ctx.floor("C04.R7", "query_unmapped implementations (BAM/SAM/CRAM, sync + async)", nq, 6)
 
 
 def filtered_return(ctx, rule, f, target, some=False):
